@@ -382,6 +382,10 @@ func minimallyEncode(data []byte) []byte {
 		return data
 	}
 
+	// The encoding is shortened by writing to the bytes, so work on a copy.
+	// The passed slice may be shared with other stack items and the script.
+	data = append(make([]byte, 0, len(data)), data...)
+
 	for i := len(data) - 1; i > 0; i-- {
 		if data[i-1] != 0 {
 			if data[i-1]&0x80 != 0 {
